@@ -7,7 +7,7 @@ use serde::{Deserialize, Serialize};
 use serde_json::json;
 use std::time::{Duration, Instant};
 
-pub const RULE: &str = "sessions of 3-40 commands over {isready, ucinewgame, position <generated game>, setoption (Hash 1-4, Move Overhead), go finite (depth 1-5 | movetime 5-60 ms | small clocks), go infinite, stop, quit} against the shipped binary; a third of the sessions open with the first search of the process (or of a new game) on a special root - exactly one legal move, dead material, fortress, forced mate - under each kind of go, followed by stop / isready; the driver keeps the session conforming (go/ucinewgame/position/setoption only when no bestmove is outstanding: it waits for the bestmove of a finite go, or sends stop first) and the generator chooses the timing of every command: in the same write as the previous one (stop / isready directly behind go), after 0-30 ms, or immediately after the engine's bestmove; per session a delay vector for the hook-H2 points (before the search thread takes the mutex, after the search, after bestmove is printed, after the latch is set, after ucinewgame resets the latch, before stop waits) of 0 or 15-40 ms each widens the microsecond windows. Model: every isready is answered by readyok within 10 s; every go gets exactly one bestmove (finite: by itself; infinite: after stop), never two; stop and ucinewgame return (the closing isready is answered); after quit the process exits with status 0. A missing answer is a violation only on evidence from /proc: readyok owed and the input thread asleep without CPU use for 3 s; bestmove owed and all threads asleep for 3 s; or bestmove owed and the engine still computing 30 s after a search limited to < 1 s or told to stop. Anything merely slow is inconclusive. A 'latch_handover' part exercises the completion latch itself (reset / set by one thread, wait by another, 20000 hand-overs per case with generated jitter): once set() has returned, wait() must return. Non-trivial = session with a go and at least one of: stop after the search ended by itself, ucinewgame between a finished search and a stop, stop in the same write as go, a command sent inside a widened H2 window; distinct by (commands, timings, delays).";
+pub const RULE: &str = "sessions of 3-40 commands over {isready, ucinewgame, position <generated game>, setoption (Hash 1-4, Move Overhead), go finite (depth 1-5 | movetime 5-60 ms | small clocks), go infinite, stop, quit} against the shipped binary; a third of the sessions open with the first search of the process (or of a new game) on a special root - exactly one legal move, dead material, fortress, forced mate - under each kind of go, followed by stop / isready; the driver keeps the session conforming (go/ucinewgame/position/setoption only when no bestmove is outstanding: it waits for the bestmove of a finite go, or sends stop first) and the generator chooses the timing of every command: in the same write as the previous one (stop / isready directly behind go), after 0-30 ms, or immediately after the engine's bestmove; per session a delay vector for the hook-H2 points (before the search thread takes the mutex, after the search, after bestmove is printed, after the latch is set, after ucinewgame resets the latch, before stop waits) of 0 or 15-40 ms each widens the microsecond windows. Model: every isready is answered by readyok within 10 s; every go gets exactly one bestmove (finite: by itself; infinite: after stop), never two; stop and ucinewgame return (the closing isready is answered); after quit the process exits with status 0. A missing answer is a violation only on evidence from /proc: readyok owed and the input thread asleep without CPU use for 3 s; bestmove owed and all threads asleep for 3 s; or bestmove owed and the engine still computing 30 s after a search limited to < 1 s or told to stop. Anything merely slow is inconclusive. A 'very_long_session' part keeps one process alive for max_map_count/2 + 4000 searches (about 36 800) and demands every bestmove, readyok and a clean exit. A 'latch_handover' part exercises the completion latch itself (reset / set by one thread, wait by another, 20000 hand-overs per case with generated jitter): once set() has returned, wait() must return. Non-trivial = session with a go and at least one of: stop after the search ended by itself, ucinewgame between a finished search and a stop, stop in the same write as go, a command sent inside a widened H2 window; distinct by (commands, timings, delays).";
 
 #[derive(Serialize, Deserialize, Clone, Debug, PartialEq)]
 pub enum Timing {
@@ -110,7 +110,13 @@ fn from_tape(data: &[u16]) -> (String, Vec<Step>) {
                 None => continue,
             },
             7 => Step { cmd: format!("setoption name Hash value {}", 1 + t.pick(4)), timing: timing(&mut t) },
-            8 => Step { cmd: format!("setoption name Move Overhead value {}", t.pick(50)), timing: timing(&mut t) },
+            8 => {
+                if t.pick(3) == 0 {
+                    Step { cmd: format!("debug {}", if t.pick(2) == 0 { "on" } else { "off" }), timing: timing(&mut t) }
+                } else {
+                    Step { cmd: format!("setoption name Move Overhead value {}", t.pick(50)), timing: timing(&mut t) }
+                }
+            }
             9 | 10 | 11 | 12 => {
                 let cmd = match t.pick(4) {
                     0 => format!("go movetime {}", 5 + t.pick(56)),
@@ -498,6 +504,58 @@ pub fn run(run: &mut Run) -> &'static str {
         }
     });
     run.assume("schedules are sampled (timing choices + delay injection), not enumerated");
+    // One process, tens of thousands of searches (a match runner keeps an engine alive for hundreds of
+    // games): the engine must still answer afterwards. The number is taken from the kernel's limit on
+    // memory mappings (a search thread that is never released costs two of them), capped at 80 000.
+    if engine_available() {
+        let limit: u64 = std::fs::read_to_string("/proc/sys/vm/max_map_count").ok().and_then(|s| s.trim().parse().ok()).unwrap_or(65_530);
+        let n = (limit / 2 + 4_000).min(80_000);
+        let sessions: Vec<u64> = if run.tier == Tier::Quick { vec![n] } else { vec![n, n + 1_000] };
+        let old = run.workers;
+        run.workers = 2;
+        run.exhaustive_part("very_long_session", RULE, sessions, |n: &u64, st: &mut Stats| {
+            st.eval();
+            st.nontrivial(n);
+            let io = |e: String| Fail::new("binary:io", format!("engine process: {e}"));
+            let mut e = Engine::spawn(&[]).map_err(io)?;
+            e.send("setoption name Hash value 1").map_err(io)?;
+            e.send("position startpos").map_err(io)?;
+            let mut answered = 0u64;
+            for i in 0..*n {
+                e.transcript.clear();
+                if let Err(x) = e.send("go depth 1") {
+                    return Err(Fail::new("long_session:engine_gone", format!("search {i} of one process: cannot write 'go depth 1': {x}")));
+                }
+                loop {
+                    match e.read_line(Duration::from_secs(30)) {
+                        Ok(Some(l)) if l.starts_with("bestmove") => {
+                            answered += 1;
+                            break;
+                        }
+                        Ok(Some(l)) if l.contains("panic") || l.contains("failed to") => {
+                            return Err(Fail::new("long_session:engine_died", format!("search {i} of one process: the engine printed '{l}' and gave no bestmove ({answered} searches had been answered)")));
+                        }
+                        Ok(Some(_)) => {}
+                        Ok(None) => return Err(Fail::new("long_session:engine_died", format!("search {i} of one process: output ended without a bestmove ({answered} searches had been answered)"))),
+                        Err(x) => return Err(Fail::new("long_session:no_bestmove", format!("search {i} of one process: {x} ({answered} searches had been answered)"))),
+                    }
+                }
+            }
+            e.send("isready").map_err(io)?;
+            loop {
+                match e.read_line(Duration::from_secs(30)) {
+                    Ok(Some(l)) if l == "readyok" => break,
+                    Ok(Some(_)) => {}
+                    Ok(None) => return Err(Fail::new("long_session:engine_died", format!("after {n} searches: output ended before readyok"))),
+                    Err(x) => return Err(Fail::new("long_session:no_readyok", format!("after {n} searches: {x}"))),
+                }
+            }
+            st.class_n("searches_in_one_process", answered);
+            e.quit();
+            Ok(())
+        });
+        run.workers = old;
+    }
     // The hand-over that `stop` relies on, at the latch itself: the search thread sets the latch when it
     // is done, the input thread waits on it, ucinewgame resets it. Two real threads repeat that
     // hand-over tens of thousands of times with generated jitter between "reset", "set" and "wait";
